@@ -13,6 +13,13 @@ and a core of graphs is pushed through the full product store x compression {Non
 {str, Path} x mode {w, o, o onto an existing target of another class}; every point must satisfy R1 and be
 exactly equal to the default-configuration result of the same store (configuration independence).
 
+A HISTORY part drives one live object through every sequence of {save to a new zip/dir target, mode='o' save
+onto the previous target, in-place mutations of tensors (requires_grad_ flip, writes through .data and through
+.numpy(), add_), ndarray writes, attribute replacement by another kind, append / setitem / delete, changes inside a
+nested object} up to depth 3 (quick) / 4 (thorough): after the last save load(target) must equal the object as
+it is then, and earlier targets must still load to what the object was when they were written. A WIDTH family
+stores containers of 9..101 elements (slot names of 1, 2 and 3 digits).
+
 Excluded from the input alphabet exactly as the quantifier says: reserved metadata names, names
 containing '/' (and what zarr treats as path syntax: '\\', '.', '..'), non-native byte order and
 object dtype, integers beyond int64 inside all-numeric sequences. rng / logger: same kind only.
@@ -35,7 +42,10 @@ CLAIM = (
     "compared with a structural-equality oracle (same class, identical attribute-name set, container kinds, dict key sets, "
     "array dtype/shape/bytes, tensor dtype/shape/values/requires_grad, module state_dict): load(save(x)) equals x, the two "
     "stores give the same object, and saving the loaded object again is a fixed point; a core of graphs additionally runs "
-    "through the full product of store x compression level x path type x write mode. Exploration is the right level: the "
+    "through the full product of store x compression level x path type x write mode, containers of 9..101 elements are stored "
+    "for every container and element kind, and one live object is driven through every history of saves (new target, mode 'o') "
+    "and in-place mutations up to depth 3 (quick) / 4 (thorough) with load(target) compared to a deep-copy model after every "
+    "save and earlier targets re-read. Exploration is the right level: the "
     "property is a statement about a lattice of value kinds and configurations, each point decided exactly by one execution."
 )
 NOTE = (
@@ -45,7 +55,8 @@ NOTE = (
 )
 RULE = (
     "Full enumeration of the graph families of checks/_serial.grammar(tier) x {zip, dir} with three relations per point, plus "
-    "core graphs x {zip, dir} x compression {None,0..9} x path {str, Path} x mode {w, o, o-onto-existing}. A point is "
+    "core graphs x {zip, dir} x compression {None,0..9} x path {str, Path} x mode {w, o, o-onto-existing}, plus every event "
+    "sequence up to the stated depth that ends in a save on four live objects (sequences with a non-applicable event are dropped and counted). A point is "
     "non-trivial when the loaded object has at least one attribute to compare; distinct = distinct (graph descriptor, store[, configuration])."
 )
 
@@ -219,6 +230,238 @@ def eval_config(item, seed=0, scratch="/tmp"):
     return t
 
 
+# ----------------------------------------------------------------------------- histories on one live object
+# Every other part of this check builds a fresh graph and saves it once. Here ONE live object goes through a
+# history of events (saves to new targets in either store, mode='o' saves onto the previous target, in-place
+# mutations between them); all histories up to a depth are enumerated, replayed from a fresh build, and judged
+# after the last save:  load(last target) ~ the object as it is now (a deep copy taken at the save is the
+# model), and every earlier target that was not overwritten still loads to what the object was THEN.
+# Only histories that end in a save are executed: the checks after an earlier save of a history are exactly
+# the checks of the prefix that ends there, and every prefix is enumerated as a history of its own.
+def _hist_graphs():
+    L, C, D, O = S.L, S.C, S.D, S.O
+    T, G, A = L("t_f64"), L("t_f32_grad"), L("arr:f64:(2, 3)")
+    M = lambda op, *path: ["mut", op, list(path)]  # noqa: E731
+    SET = lambda desc, *path: ["mut", "set", list(path), desc]  # noqa: E731
+    return {
+        "tensor_top": (
+            O("Root", t=T, g=G, n=L("i-1")),
+            [M("rg_flip", "t"), M("rg_flip", "g"), M("data_mul2", "g"), M("data_set", "t"), M("numpy_set", "t"), M("inplace_add", "t"),
+             SET(L("arr:i16:(3,)"), "t"), M("del", "n")],
+        ),
+        "tensor_in_containers": (
+            O("Root", l=C("list", T, L("s")), d=D(("k", G))),
+            [M("rg_flip", "l", 0), M("numpy_set", "l", 0), M("data_mul2", "d", "k"), M("rg_flip", "d", "k"), ["mut", "append", ["l"], L("s_unicode")],
+             SET(L("i2^40"), "d", "k2"), SET(C("tuple", L("s"), L("none")), "l")],
+        ),
+        "arrays_and_containers": (
+            O("Root", a=A, l=C("list", L("i-1"), L("s")), d=D(("k", L("arr:i16:(3,)"))), v=L("s")),
+            [M("nd_set", "a"), M("nd_set", "d", "k"), ["mut", "append", ["l"], L("f1.5")], SET(L("none"), "d", "n"), SET(L("s_unicode"), "a"),
+             SET(L("arr:u8:(3,)"), "v"), M("del", "v"), M("del", "d", "k")],
+        ),
+        "nested_object": (
+            O("Root", child=O("NodeA", t=T, a=L("arr:i16:(3,)"), v=L("i-1")), v=L("s")),
+            [M("rg_flip", "child", "t"), M("data_set", "child", "t"), M("nd_set", "child", "a"), SET(L("s"), "child", "v"), M("del", "child", "a"),
+             SET(G, "child", "new"), SET(C("list", L("i-1"), L("s")), "child")],
+        ),
+    }
+
+
+HIST_GRAPHS = _hist_graphs()
+HIST_SAVES = [["save_new", "zip"], ["save_new", "dir"], ["save_o"]]
+
+
+def _resolve(root, path):
+    cur = root
+    for step in path:
+        if isinstance(cur, S.AutoSerialize):
+            cur = vars(cur)[step]
+        else:
+            cur = cur[step]
+    return cur
+
+
+def _apply_mutation(root, ev, seed):
+    """Apply one mutation event to the live object. False = not enabled in this state (history is dropped)."""
+    import numpy as np
+    import torch
+
+    op, path = ev[1], ev[2]
+    try:
+        if op in ("set", "del"):
+            parent, name = _resolve(root, path[:-1]), path[-1]
+            if op == "set":
+                v = S.build(ev[3], seed)
+                if isinstance(parent, S.AutoSerialize):
+                    setattr(parent, name, v)
+                elif isinstance(parent, (dict, list)):
+                    parent[name] = v
+                else:
+                    return False
+            else:
+                if isinstance(parent, S.AutoSerialize):
+                    delattr(parent, name)
+                elif isinstance(parent, dict):
+                    del parent[name]
+                else:
+                    return False
+            return True
+        x = _resolve(root, path)
+        if op == "append":
+            if not isinstance(x, list):
+                return False
+            x.append(S.build(ev[3], seed))
+        elif op == "nd_set":
+            if not isinstance(x, np.ndarray) or x.size == 0:
+                return False
+            x.reshape(-1)[0] = 42
+        elif op in ("rg_flip", "data_mul2", "data_set", "numpy_set", "inplace_add"):
+            if not isinstance(x, torch.Tensor) or x.numel() == 0 or not x.is_leaf:
+                return False
+            if op == "rg_flip":
+                if not (x.is_floating_point() or x.is_complex()):
+                    return False
+                x.requires_grad_(not x.requires_grad)
+            elif op == "data_mul2":
+                x.data.mul_(2)
+            elif op == "data_set":
+                x.data.view(-1)[0] = 7.5
+            elif op == "numpy_set":
+                if x.requires_grad:
+                    return False
+                x.numpy().reshape(-1)[-1] = -3.25
+            else:
+                if x.requires_grad:
+                    return False
+                x.add_(1)
+        else:
+            raise ValueError(op)
+        return True
+    except (KeyError, IndexError, AttributeError, TypeError):
+        return False
+
+
+def hist_enabled(gname, hist, seed):
+    """Dry run without any I/O: every mutation applicable, every mode='o' save preceded by a save."""
+    root = S.build(HIST_GRAPHS[gname][0], seed)
+    saved = False
+    for ev in hist:
+        if ev[0] == "save_new":
+            saved = True
+        elif ev[0] == "save_o":
+            if not saved:
+                return False
+        elif not _apply_mutation(root, ev, seed):
+            return False
+    return True
+
+
+def run_history(gname, hist, seed, scratch):
+    """Replay one history on a fresh live object. Returns (fails, outcome, saves)."""
+    import copy
+
+    fails = []
+    root = S.build(HIST_GRAPHS[gname][0], seed)
+    targets = {}  # path -> (store, model = deep copy of the object when it was last saved there, index of that save)
+    last = None
+    last_mut = None
+    nsaves = 0
+    label = f"graph {gname} {S.show(HIST_GRAPHS[gname][0])} history {_show_hist(hist)}"
+    with S.Workdir(scratch, "C01") as wd:
+        for i, ev in enumerate(hist):
+            if ev[0] == "mut":
+                if not _apply_mutation(root, ev, seed):
+                    raise Broken(f"history {hist} was enumerated as enabled but event {i} is not applicable")
+                last_mut = ev[1]
+                continue
+            if ev[0] == "save_new":
+                store = ev[1]
+                p = S.target(wd, store, f"h{i}")
+                mode = "w"
+            else:
+                p, store, mode = last[0], last[1], "o"
+            model = copy.deepcopy(root)
+            try:
+                with S.quiet():
+                    root.save(p, store=store, mode=mode)
+            except Exception as e:
+                cls = {"relation": "history:load_equals_current_object", "symptom": "save_raises", "exc": type(e).__name__, "last_mutation": last_mut}
+                fails.append((cls, f"{label}: save event {i} raised {type(e).__name__}: {str(e)[:200]} (expected: no exception)"))
+                return fails, ["save_raises"], nsaves
+            nsaves += 1
+            targets[p] = (store, model, i)
+            last = (p, store)
+        # ---- verdicts after the last event (a save)
+        outcome = None
+        for p, (store, model, i) in targets.items():
+            rel = "history:load_equals_current_object" if p == last[0] else "history:earlier_target_unchanged"
+            try:
+                with S.quiet():
+                    y = S.q_load(p)
+            except Exception as e:
+                fails.append(({"relation": rel, "symptom": "load_raises", "exc": type(e).__name__, "last_mutation": last_mut}, f"{label}: loading the target of save event {i} raised {type(e).__name__}: {str(e)[:200]}"))
+                continue
+            if p == last[0]:
+                outcome = S.summary(y)
+            d = S.diff(model, y, slack=True)
+            if d:
+                what = "the object as it is now" if p == last[0] else f"the object as it was at save event {i} (the file changed afterwards)"
+                fails.append((S.cls_of(d[0], relation=rel, last_mutation=last_mut), f"{label}: load(target of save event {i}, store={store}) differs from {what}: {S.fmt(d)}"))
+    return fails, outcome, nsaves
+
+
+def _show_hist(hist):
+    out = []
+    for ev in hist:
+        if ev[0] == "save_new":
+            out.append(f"save({ev[1]})")
+        elif ev[0] == "save_o":
+            out.append("save(mode='o', same target)")
+        else:
+            tgt = ".".join(str(x) for x in ev[2])
+            out.append(f"{ev[1]}({tgt}{', ' + S.show(ev[3]) if len(ev) > 3 else ''})")
+    return "[" + " ; ".join(out) + "]"
+
+
+def enumerate_histories(depth):
+    """All event sequences of length 1..depth that end in a save (mode='o' never first). Enabledness that
+    depends on the state is decided in the worker by a dry run."""
+    import itertools
+
+    items = []
+    for gname, (_, muts) in HIST_GRAPHS.items():
+        alphabet = muts + HIST_SAVES
+        for n in range(1, depth + 1):
+            for prefix in itertools.product(alphabet, repeat=n - 1):
+                if prefix and prefix[0][0] == "save_o":
+                    continue
+                for sv in HIST_SAVES:
+                    if sv[0] == "save_o" and not any(e[0] == "save_new" for e in prefix):
+                        continue
+                    items.append({"graph": gname, "history": [list(e) for e in prefix] + [sv]})
+    return items
+
+
+def eval_history(item, seed=0, scratch="/tmp"):
+    t = Tally()
+    gname, hist = item["graph"], item["history"]
+    if not hist_enabled(gname, hist, seed):
+        t.extra["histories_not_enabled"] += 1
+        return t
+    fails, outcome, nsaves = run_history(gname, hist, seed, scratch)
+    nmut = sum(1 for e in hist if e[0] == "mut")
+    t.case(key=["history", gname, hist], nontrivial=len(hist) >= 2, outcome=outcome)
+    t.extra["histories"] += 1
+    t.extra["history_saves"] += nsaves
+    if nsaves >= 2 and nmut >= 1:
+        t.extra["histories_with_mutation_between_two_saves"] += int(any(hist[i][0] == "mut" and any(e[0] != "mut" for e in hist[:i]) for i in range(len(hist))))
+    for cls, msg in fails:
+        t.fail(cls, {"kind": "history", "graph": gname, "history": hist, "seed": seed}, msg)
+    if len(hist) == 3 and hist[0][0] == "save_new" and hist[1][0] == "mut":
+        t.sample({"family": "history", "graph": gname, "history": _show_hist(hist), "observed": "load(last target) equals the live object; earlier targets unchanged" if not fails else f"{len(fails)} failure(s)"}, cap=1)
+    return t
+
+
 # ----------------------------------------------------------------------------- driver
 def run(ctx):
     ctx.assume(
@@ -251,6 +494,9 @@ def run(ctx):
         for i, g in enumerate(core) for s in STORES for c in COMPRESSIONS
     ]
     merged_cfg = ctx.pmap(eval_config, cfg_items, chunk=2, label="configurations", seed=ctx.seed, scratch=ctx.scratch)
+    hdepth = 3 if ctx.quick else 4
+    hitems = enumerate_histories(hdepth)
+    merged_h = ctx.pmap(eval_history, hitems, label="histories", seed=ctx.seed, scratch=ctx.scratch)
 
     covered = set()
     for it in items:
@@ -271,8 +517,14 @@ def run(ctx):
             "numeric_corner_alphabet": S.CORNER_ALPHABET,
             "name_alphabet": S.NAME_ALPHABET,
         },
-        bounds=dict(bounds, config_core_graphs=len(core), config_points=len(cfg_items) * len(PATH_KINDS) * len(MODES)),
-        relations=["load_save_equals_input", "zip_equals_dir", "fixed_point", "config_independent"],
+        bounds=dict(bounds, config_core_graphs=len(core), config_points=len(cfg_items) * len(PATH_KINDS) * len(MODES), history_depth=hdepth),
+        relations=["load_save_equals_input", "zip_equals_dir", "fixed_point", "config_independent", "history:load_equals_current_object", "history:earlier_target_unchanged"],
+        histories={
+            "depth": hdepth, "graphs": {k: S.show(v[0]) for k, v in HIST_GRAPHS.items()},
+            "events": {k: [_show_hist([e]) for e in v[1] + HIST_SAVES] for k, v in HIST_GRAPHS.items()},
+            "sequences_enumerated": len(hitems), "executed": int(merged_h.extra["histories"]), "not_enabled": int(merged_h.extra["histories_not_enabled"]),
+            "with_mutation_between_two_saves": int(merged_h.extra["histories_with_mutation_between_two_saves"]), "saves": int(merged_h.extra["history_saves"]),
+        },
         dispatch_classes_covered=sorted(covered),
         exhaustive=True,
     )
@@ -282,12 +534,27 @@ def run(ctx):
         raise Broken(f"graph enumeration degenerate: {merged.extra['graphs']} of {len(items)} graphs evaluated")
     if len(merged.outcomes) < len(items) // 10:
         raise Broken(f"only {len(merged.outcomes)} distinct outcomes for {len(items)} graphs")
+    if int(merged_h.extra["histories"]) + int(merged_h.extra["histories_not_enabled"]) != len(hitems) or int(merged_h.extra["histories_with_mutation_between_two_saves"]) < 50:
+        raise Broken(f"history enumeration degenerate: {dict(merged_h.extra)} of {len(hitems)} sequences")
     if merged_cfg.nfails == 0 and int(merged_cfg.extra["config_points"]) != len(cfg_items) * len(PATH_KINDS) * len(MODES):
         raise Broken(f"configuration product incomplete: {merged_cfg.extra['config_points']} points")
 
 
 def replay(ctx, case):
     seed = case.get("seed", ctx.seed)
+    if case["kind"] == "history":
+        gname, hist = case["graph"], case["history"]
+        print(f"  live object: {S.show(HIST_GRAPHS[gname][0])}  (seed {seed})")
+        print(f"  history    : {_show_hist(hist)}")
+        if not hist_enabled(gname, hist, seed):
+            print("  history is not enabled on this tree's builders (nothing to replay)")
+            return
+        fails, outcome, nsaves = run_history(gname, hist, seed, ctx.scratch)
+        for cls, msg in fails:
+            ctx.fail(cls, case, msg)
+        print(f"  loaded from the last target: {str(outcome)[:500]}")
+        print(f"  expected: load(last target) equals the live object at that save and earlier targets still load to their snapshots; observed: {len(fails)} failure(s) after {nsaves} save(s)")
+        return
     if case["kind"] == "graph":
         desc = case["graph"]
         print(f"  graph: {S.show(desc)}  (seed {seed})")
